@@ -51,3 +51,44 @@ Definition packet_ascii (o : out) (ro : obj) : res bytes :=
 
 Definition ascii_server_run (sk : skel) (cfg : scfg) (l : units slavectx) (chunks : list bytes) : e2e_result astate :=
   run_serial (a_recv_h base lrc ascii e2e_dec) packet_ascii sk cfg (a_init ascii) l chunks.
+
+(* ---------------------------------------------------------------- RTU
+   The RTU half of the framer development has its own types (FrBCommon: decoder result without a
+   function code and with a table-miss value, deliveries as (PDU, unit) pairs, exits, a configuration
+   record holding the decoder and its frame-size table).  Adapters to the FrBaseA shape: *)
+From PM.theories Require FrBCode Crc FrBCommon FrRtu.
+From PM.Generated Require GenFramerB.
+
+Definition rtu_dec (pdu : bytes) : FrBCommon.dres :=
+  match e2e_dec pdu with
+  | FrBaseA.DMsg _ => FrBCommon.DMsg
+  | FrBaseA.DNone => FrBCommon.DNone
+  | FrBaseA.DRaise e => FrBCommon.DRaise e
+  end.
+
+(* processIncomingPacket(data, callback, units, single=single) with the server's decoder *)
+Definition rtu_fcfg (c : FrBaseA.cfg) : FrBCommon.fcfg :=
+  {| FrBCommon.cf_dec := rtu_dec; FrBCommon.cf_rules := GenFramerB.server_decoder;
+     FrBCommon.cf_units := c_units c;
+     FrBCommon.cf_single := match c_single c with Some b => b | None => false end |}.
+
+(* the RTU framer copies only the unit id onto the message *)
+Definition rtu_delivery (p : FrBCommon.delivered) : delivery :=
+  {| d_pdu := fst p; d_tid := 0; d_pid := 0; d_uid := snd p |}.
+
+(* one read through the serial handler: resetFrame() when the framer raises *)
+Definition rtu_recv_h (c : FrBaseA.cfg) (st : FrRtu.rstate) (data : bytes) : FrRtu.rstate * list delivery * outc :=
+  let '(st1, ds, x) := FrRtu.rtu_recv (rtu_fcfg c) st data in
+  match x with
+  | FrBCommon.FOk => (st1, map rtu_delivery ds, Done)
+  | FrBCommon.FExn e => (FrRtu.rtu_reset st1, map rtu_delivery ds, FrBaseA.Exc e)
+  | FrBCommon.FOutOfFuel | FrBCommon.FMissing => (st1, map rtu_delivery ds, OutOfFuel)   (* never: see C06_rtu_loop_terminates; the decoder is a function *)
+  end.
+
+Definition packet_rtu (o : out) (ro : obj) : res bytes :=
+  do fc <- obj_fc ro;
+  do data <- py_encode ro;
+  FrRtu.rtu_build (o_uid o) fc data.
+
+Definition rtu_server_run (sk : skel) (cfg : scfg) (l : units slavectx) (chunks : list bytes) : e2e_result FrRtu.rstate :=
+  run_serial rtu_recv_h packet_rtu sk cfg FrRtu.rtu_init l chunks.
